@@ -470,7 +470,9 @@ fn c09_units(tier: Tier) -> Vec<Unit> {
                 let end = init.pc + code.len() as u32;
                 init.image = vec![(init.pc, code)];
                 init.er = regs;
+                ctx.strict_odd = true;
                 ctx.run_seq(&init, Act::Step, len, &mut |o: &StepObs| if o.post_pc == end { Next::Stop } else { Next::Continue(Act::Step) });
+                ctx.strict_odd = false;
             }
         }));
     }
@@ -485,7 +487,7 @@ pub fn c09(tier: Tier, _seed: u64) -> Prop {
         assumptions: vec![
             "the five accessible ranges are literal constants from the property text".into(),
             "port DDR/DR registers are excluded from write-read and aliasing (peripheral side effects, C16)".into(),
-            "history bound: length <= 3 (quick) / <= 4 (thorough), all operations of a history within +-4 of one region edge; W/L accesses at odd addresses are left open by the ISA reference".into(),
+            "history bound: length <= 3 (quick) / <= 4 (thorough), all operations of a history within +-4 of one region edge; W/L accesses at odd addresses are checked as the big-endian composition of the consecutive bytes A..A+n-1, as the statement says".into(),
             "quick tier classifies addresses above 2^24 on a covering set (strided, powers of two, aliases of region edges); thorough classifies all 2^32".into(),
         ],
         units: c09_units(tier),
